@@ -160,6 +160,12 @@ private:
 
         type(type&&) = delete;
 
+        ~type() {
+          if (rescheduled_) {
+            reschedule_op_.destruct();
+          }
+        }
+
         void start() noexcept;
         void stop() noexcept;
 
@@ -169,6 +175,7 @@ private:
             return unifex::connect(
                 schedule(get_scheduler(receiver_)), reschedule_receiver{*this});
           });
+          rescheduled_ = true;
           unifex::start(reschedule_op_.get());
         }
 
@@ -187,6 +194,7 @@ private:
         async_manual_reset_event& evt_;
         Receiver receiver_;
         manual_lifetime<reschedule_op_t> reschedule_op_;
+        bool rescheduled_{false};
       };
     };
 
